@@ -1000,7 +1000,13 @@ func apiStage(dir string, seed uint64, tier string) error {
 	w := &gal.Writer{Dir: dir, Require: "From Apko Require Import Corr.C09.", Type: "api_case", Check: "check_api", Shard: 25}
 	for _, sc := range corpusScenarios() {
 		sc := sc
-		withWorld(key, sc, func(wd *world) { apiCase(w, wd, "corpus/"+sc.Name, 4) })
+		runs := 4
+		if sc.Name == "virtual-vs-real-per-arch" {
+			// the scenario whose result depends on which architecture unify starts from (C09-F3): were the architectures
+			// visited in map order again, Go would start a two-entry range at the second entry about 1 time in 8
+			runs = 24
+		}
+		withWorld(key, sc, func(wd *world) { apiCase(w, wd, "corpus/"+sc.Name, runs) })
 	}
 	r := gal.NewRand(seed + 31)
 	n := 40
